@@ -2,7 +2,7 @@
    Statements only; proofs in Proofs/GovFacts.v and Proofs/GovWorld.v (repaired source, fixed F-C12-1). *)
 From Coq Require Import String List NArith Lia.
 From Ax Require Import Lib.Bytes Lib.Mvx Model.Check Model.Env Model.Gateway Model.Governance
-     Proofs.GatewayMsgs Proofs.GovFacts Proofs.GovWorld Gen.Generated.
+     Proofs.GatewayMsgs Proofs.GovFacts Proofs.GovWorld Proofs.GovCount Proofs.GovCountOp Gen.Generated.
 Import ListNotations.
 Open Scope N_scope.
 
@@ -72,6 +72,18 @@ Section C12.
   Theorem c12_withdraw_self_only : forall w c r a w' ev, gov_withdraw w c r a = Some (w', ev) ->
     x_caller c = x_self c /\ transfer (w_led w) (x_self c) r EGLD a = Some (w_led w') /\ w_gov w' = w_gov w.
   Proof. exact gov_withdraw_self_only. Qed.
+
+  (* counting (Proofs/GovCountOp.v): over every history and schedule, successful operator dispatches of h
+     <= accepted approve commands for h (+ approved / in flight at the start): an approval is consumed by
+     the dispatch, given back only by a failed call, and authorises at most one successful dispatch *)
+  Theorem c12_approval_potential : forall w o h,
+    accept_op_of H verify w o h + bnz (getN (gv_approvals (w_gov (fst (step w o)))) h) <=
+    approve_of H verify w o h + cbo_of false w o h + bnz (getN (gv_approvals (w_gov w)) h).
+  Proof. exact (approval_potential H verify). Qed.
+  Theorem c12_one_success_per_approval : forall os w h,
+    total H verify (cbo_of true) w os h <=
+    total H verify (approve_of H verify) w os h + bnz (getN (gv_approvals (w_gov w)) h) + npend_op h (w_pend w).
+  Proof. exact (op_successes_bounded_by_approvals H verify). Qed.
 End C12.
 
 Print Assumptions c12_execute_requires.
@@ -80,6 +92,7 @@ Print Assumptions c12_tables_frame.
 Print Assumptions c12_operator_dispatch.
 Print Assumptions c12_cancelled_approval_stays_cancelled.
 Print Assumptions c12_withdraw_self_only.
+Print Assumptions c12_one_success_per_approval.
 
 Example pin_gov_endpoints : gen_gov_endpoints = [("executeProposal", "*"); ("executeOperatorProposal", "*"); ("withdraw", ""); ("transferOperatorship", "");
    ("execute", ""); ("withdrawRefundToken", "")]%string := eq_refl.
@@ -87,4 +100,5 @@ Example pin_gov_storage : gen_gov_storage = ["gateway"; "minimum_time_lock_delay
    "operator_approvals"; "time_lock_in_flight"; "operator_in_flight"; "refund_token"]%string := eq_refl.
 
 Check c12_tables_frame.
+Check c12_one_success_per_approval.
 Check c12_cancelled_approval_stays_cancelled.
